@@ -757,6 +757,12 @@ static inline void garbage(void *p, size_t n) {
   uint64_t x = g_cfg.garbage_seed ^ (++g_alloc_seq * 0x9e3779b97f4a7c15ULL);
   unsigned char *b = (unsigned char *)p;
   size_t i = 0;
+  if (g_cfg.garbage_mode == 2) { memset(p, 0, n); return; }
+  if (g_cfg.garbage_mode == 3) {  // finite but absurd: doubles around 1e200, integers huge
+    for (; i + 8 <= n; i += 8) { double d = 1e200 * (1.0 + (double)(Prng::splitmix(x) >> 40) * 1e-8); memcpy(b + i, &d, 8); }
+    for (; i < n; i++) b[i] = (unsigned char)(0x5A ^ i);
+    return;
+  }
   for (; i + 8 <= n; i += 8) { uint64_t z = Prng::splitmix(x) | 0x7ff0000000000001ULL; /* NaN payloads for doubles */ memcpy(b + i, &z, 8); }
   for (; i < n; i++) b[i] = (unsigned char)(0xA5 ^ i);
 }
